@@ -347,7 +347,7 @@ def order_refinement(ctx, pairs):
     cfgs = ["PbfOrderRefine_%d_%d.cfg" % p for p in pairs] + ["PbfOrderRefine_canary.cfg"]
     with cf.ThreadPoolExecutor(max_workers=6) as ex:
         res = list(ex.map(one, cfgs))
-    runs = []
+    runs, tlc_runs, tot = [], [], [0, 0]
     for c, r in res:
         if c.endswith("canary.cfg"):
             if r.rc != 13:
@@ -355,12 +355,14 @@ def order_refinement(ctx, pairs):
             continue
         if r.rc != 0 or r.distinct < 100:
             raise vlib.Infra("PbfPipeline does not refine PbfOrderCore under %s (rc=%s, %s):\n%s" % (c, r.rc, r.violation, r.out[-3000:]))
-        ctx.states += r.distinct
-        ctx.transitions += r.generated
-        ctx.tlc_runs.append({"module": "PbfOrderRefine", "cfg": c, "distinct": r.distinct, "generated": r.generated, "wall_s": round(r.wall, 1), "rc": r.rc})
+        tot[0] += r.distinct
+        tot[1] += r.generated
+        tlc_runs.append({"module": "PbfOrderRefine", "cfg": c, "distinct": r.distinct, "generated": r.generated, "wall_s": round(r.wall, 1), "rc": r.rc})
         runs.append(c)
-    ctx.extra["order_refinement"] = {"module": "PbfOrderRefine.tla", "configs": runs, "canary_refuted": True,
-                                     "meaning": "every step of PbfPipeline (unstopped scans) is a step of PbfOrderCore or a stutter; mapped IndInv invariant"}
+    # runs on a background thread: hand the numbers back instead of updating the shared counters from here
+    return {"states": tot[0], "transitions": tot[1], "tlc_runs": tlc_runs,
+            "extra": {"module": "PbfOrderRefine.tla", "configs": runs, "canary_refuted": True,
+                      "meaning": "every step of PbfPipeline (unstopped scans) is a step of PbfOrderCore or a stutter; mapped IndInv invariant"}}
 
 
 def model_check(ctx, cfgs):
